@@ -25,6 +25,9 @@ enum Step {
     /// The same request, refused by the wrapped allocator (null): a request is an operation
     /// whether or not it succeeds, the tally counts it all the same.
     Refused(Op),
+    /// The same request issued by a destructor while the thread is unwinding from a panic that the
+    /// measured code catches itself: operations count wherever they happen.
+    Unwinding(Op),
     Clear,
 }
 
@@ -54,6 +57,9 @@ fn alphabet() -> Vec<Step> {
             v.push(Step::Refused(Op::Realloc(a, b)));
         }
     }
+    for op in [Op::Alloc(7), Op::AllocZeroed(4096), Op::Dealloc(7), Op::Realloc(7, 4096), Op::Realloc(4096, 0)] {
+        v.push(Step::Unwinding(op));
+    }
     v.push(Step::Clear);
     v
 }
@@ -64,7 +70,7 @@ fn reference(history: &[Step]) -> TallyMirror {
     let ops: Vec<Op> = history[start..]
         .iter()
         .map(|s| match s {
-            Step::Op(op) | Step::Refused(op) => *op,
+            Step::Op(op) | Step::Refused(op) | Step::Unwinding(op) => *op,
             Step::Clear => unreachable!(),
         })
         .collect();
@@ -121,6 +127,20 @@ fn apply_real(from: &TallyMirror, step: Step) -> TallyMirror {
     match step {
         Step::Op(op) => apply_op(op),
         Step::Refused(op) => apply_op_refused(op),
+        Step::Unwinding(op) => {
+            struct InDrop(Op);
+            impl Drop for InDrop {
+                fn drop(&mut self) {
+                    assert!(std::thread::panicking());
+                    apply_op(self.0);
+                }
+            }
+            let caught = std::panic::catch_unwind(move || {
+                let _guard = InDrop(op);
+                std::panic::resume_unwind(Box::new(()));
+            });
+            assert!(caught.is_err());
+        }
         Step::Clear => {
             verif::tally_clear();
         }
@@ -141,6 +161,10 @@ fn encode(h: &[Step]) -> serde_json::Value {
             Step::Op(Op::AllocZeroed(z)) => json!(["alloc_zeroed", z.to_string()]),
             Step::Op(Op::Dealloc(z)) => json!(["dealloc", z.to_string()]),
             Step::Op(Op::Realloc(a, b)) => json!(["realloc", a.to_string(), b.to_string()]),
+            Step::Unwinding(Op::Alloc(z)) => json!(["unwinding_alloc", z.to_string()]),
+            Step::Unwinding(Op::AllocZeroed(z)) => json!(["unwinding_alloc_zeroed", z.to_string()]),
+            Step::Unwinding(Op::Dealloc(z)) => json!(["unwinding_dealloc", z.to_string()]),
+            Step::Unwinding(Op::Realloc(a, b)) => json!(["unwinding_realloc", a.to_string(), b.to_string()]),
             Step::Refused(Op::Alloc(z)) => json!(["refused_alloc", z.to_string()]),
             Step::Refused(Op::AllocZeroed(z)) => json!(["refused_alloc_zeroed", z.to_string()]),
             Step::Refused(Op::Dealloc(z)) => json!(["refused_dealloc", z.to_string()]),
@@ -161,6 +185,10 @@ fn decode(v: &serde_json::Value) -> Vec<Step> {
                 "alloc" => Step::Op(Op::Alloc(n(1))),
                 "alloc_zeroed" => Step::Op(Op::AllocZeroed(n(1))),
                 "dealloc" => Step::Op(Op::Dealloc(n(1))),
+                "unwinding_alloc" => Step::Unwinding(Op::Alloc(n(1))),
+                "unwinding_alloc_zeroed" => Step::Unwinding(Op::AllocZeroed(n(1))),
+                "unwinding_dealloc" => Step::Unwinding(Op::Dealloc(n(1))),
+                "unwinding_realloc" => Step::Unwinding(Op::Realloc(n(1), n(2))),
                 "refused_alloc" => Step::Refused(Op::Alloc(n(1))),
                 "refused_alloc_zeroed" => Step::Refused(Op::AllocZeroed(n(1))),
                 "refused_dealloc" => Step::Refused(Op::Dealloc(n(1))),
